@@ -130,6 +130,14 @@ def tree(rng, depth=3, fanout=4, pool_=None, dup=0.4, odd=0.3, min_files=1, big=
                     empties.add((*prefix, nm))
 
     fill((), depth)
+    if rng.random() < 0.12:
+        # two siblings whose names are canonically equivalent (composed / decomposed) but different on disk
+        base = rng.choice([()] + sorted({k[:-1] for k in files}))
+        a, b = "caf\u00e9.txt", "cafe\u0301.txt"
+        if not any(k[: len(base) + 1] in ((*base, a), (*base, b)) for k in files):
+            files[(*base, a)] = small_content(rng) + b"nfc"
+            files[(*base, b)] = small_content(rng) + b"nfd"
+            empties.discard(base)
     while len(files) < min_files:
         nm = name(rng, {k[0] for k in files} | {k[0] for k in empties}, odd)
         files[(nm,)] = rng.choice(pool_) if pool_ and rng.random() < dup else content(rng, big=big)
@@ -251,3 +259,11 @@ def mutate_tree(rng, files, empties=(), pool_=None, kind_swaps=True, nops=None):
         if not any(f[: len(e)] == e for f in files) and not any(e[: len(f)] == f for f in files)
     }
     return files, empties, ops
+
+
+def big_files(rng, n=3):
+    """n contents above the 1 MiB large-file threshold with clearly different sizes (so that parallel hashing completes
+    them in another order than they were submitted)"""
+    sizes = [2**20 + 17, 3 * 2**20 + 5, 6 * 2**20 + 1][:n]
+    rng.shuffle(sizes)
+    return [bytes([rng.randrange(256)]) * 7 + rng.randbytes(64) * (sz // 64) + b"tail" for sz in sizes]
